@@ -295,6 +295,23 @@ func CheckC17(c *Ctx, entry, input string, r interface{ IntN(int) int }) {
 			}
 			c.Count("cutoffs", 1)
 		}
+		// a stored iterator value must be reusable: an early stop of one ranging must not affect the next one
+		it := ast.Preorder(root)
+		n1, n2 := 0, 0
+		callSUT(func() {
+			for range it {
+				n1++
+				if n1 >= 1+len(infos)/2 {
+					break
+				}
+			}
+			for range it {
+				n2++
+			}
+		})
+		if n2 != len(infos) {
+			c.Violate("c17:preorder-iterator-reuse", entry, input, fmt.Sprintf("ranging again over a stored Preorder iterator after an early stop yields %d nodes, the tree has %d", n2, len(infos)))
+		}
 		// Preorder full
 		n := 0
 		callSUT(func() {
